@@ -532,8 +532,8 @@ Proof. vm_compute. repeat split. Qed.
 Example C19_binary64_examples :
   create_linspace Run.RunC19.f_ops true (Some 1%float) 2%float 5
   = Done [1%float; 1.25%float; 1.5%float; 1.75%float; 2%float]
-  /\ create_range Run.RunC19.f_ops true (Some 0.5%float) (-0.4)%float (Some (-0.3)%float)
-     = Done [0.5%float; 0.2%float; (-0.09999999999999998)%float; (-0.39999999999999991)%float]
+  /\ create_range Run.RunC19.f_ops true (Some 0.5%float) (-0.25)%float (Some (-0.25)%float)
+     = Done [0.5%float; 0.25%float; 0%float]
   /\ create_range Run.RunC19.f_ops true (Some 0%float) infinity (Some 1%float) = Panicked Overflow
   /\ (if gtb Run.RunC19.f_ops 1%float 0%float then n_leb Run.RunC19.f_ops 0%float 3%float
       else geb Run.RunC19.f_ops 0%float 3%float) = true.
